@@ -469,8 +469,9 @@ def runLoop {D} (c : Cfg D) : Nat → St D → St D
 /-- `Engine::run`: at most `MAX_RUN_INSTRUCTIONS + 1` iterations are ever needed (`run_halts`). -/
 def run {D} (c : Cfg D) (s : St D) : St D := runLoop c (MAX_RUN_INSTRUCTIONS + 2) s
 
-/-- State at the start of `run_program(program)` (`Engine::reset`): call stack cleared, budget reset, and for the
-    font program both definition maps reset to inactive. -/
+/-- State at the start of `run_program(program)` (`Engine::reset`): call stack cleared, budget reset, value stack
+    cleared (`self.value_stack.clear()`: callers pass `vs = []`; a non-empty `vs` models values pushed after the reset,
+    as the unit tests do), and for the font program both definition maps reset to inactive. -/
 def initSt {D} (program : Nat) (funcs idefs : List Def) (vs : List Int) (d : D) : St D :=
   { initial := program, current := program, pc := 0, calls := [],
     funcs := if program = 0 then funcs.map (fun _ => {}) else funcs,
@@ -498,8 +499,8 @@ def applyUnary (ped : Bool) (cap : Nat) (vs : List Int) (f : Int → Int) : Exce
   | .error e => .error e
   | .ok (a, vs) => push cap vs (f a)
 
-/-- pushes, DUP POP CLEAR SWAP DEPTH, ADD SUB NEG, LT GTEQ EQ AND OR NOT, DEBUG (pop), and opcodes with no effect on
-    the value stack that cannot fail: AA, NROUND, SVTCA/SPVTCA/SFVTCA, RTG RTHG RTDG ROFF RUTG RDTG, FLIPON FLIPOFF.
+/-- pushes, DUP POP CLEAR SWAP DEPTH, ADD SUB NEG, LT GTEQ EQ AND OR NOT, DEBUG (pop), AA (pop), and opcodes with no effect on
+    the value stack that cannot fail: NROUND, SVTCA/SPVTCA/SFVTCA, RTG RTHG RTDG ROFF RUTG RDTG, FLIPON FLIPOFF.
     Any other opcode: `Err.data op` (the harness never generates those). -/
 def semSubset (ped : Bool) (op : Nat) (bytes : List Nat) (x : List Int × Nat) : Except Err (List Int × Nat) :=
   let (vs, cap) := x
@@ -537,8 +538,8 @@ def semSubset (ped : Bool) (op : Nat) (bytes : List Nat) (x : List Int × Nat) :
   else if op = 0x5A then ret (applyBinary ped cap vs (fun a b => b2i (a ≠ 0 ∧ b ≠ 0)))
   else if op = 0x5B then ret (applyBinary ped cap vs (fun a b => b2i (a ≠ 0 ∨ b ≠ 0)))
   else if op = 0x5C then ret (applyUnary ped cap vs (fun a => b2i (a = 0)))
-  else if op = 0x4F then ret ((pop ped vs).map (·.2))
-  else if op = 0x7F ∨ (0x6C ≤ op ∧ op ≤ 0x6F) ∨ op ≤ 0x05 ∨ op = 0x18 ∨ op = 0x19 ∨ op = 0x3D ∨ op = 0x4D ∨ op = 0x4E
+  else if op = 0x4F ∨ op = 0x7F then ret ((pop ped vs).map (·.2))
+  else if (0x6C ≤ op ∧ op ≤ 0x6F) ∨ op ≤ 0x05 ∨ op = 0x18 ∨ op = 0x19 ∨ op = 0x3D ∨ op = 0x4D ∨ op = 0x4E
       ∨ op = 0x7A ∨ op = 0x7C ∨ op = 0x7D then .ok (vs, cap)
   else .error (.data op)
 
